@@ -126,4 +126,19 @@ TEXT.update({
     },
 })
 
+TEXT.update({
+    "C19": {
+        "level_text": "Held on every monitored encoder/decoder call: all key forms round-trip to the reference key, DER output equals an independent DER writer and OpenSSL's bytes, OpenSSL documents decode, the ASN.1 ciphertext is exactly the GM/T 0009 SEQUENCE for injected ephemeral scalars (incl. crafted zero-byte coordinates), and invalid encodings are rejected by every decoder.",
+        "design_ref": "DESIGN.md section 6 C19",
+        "level_note": "Trusted: own DER reader/writer (cross-checked with OpenSSL), reference SM2, RNG hook.",
+        "technique": "runtime differential monitor of codecs against an independent DER implementation + OpenSSL corpus + rejection monitor",
+    },
+    "C20": {
+        "level_text": "Fault enumeration over lengths, truncations, byte corruptions, crafted documents and boundary keys at every listed entry point, each call under panic capture, an RNG-draw step limit and a shard watchdog, in both build profiles; one known finding (mod_n_from_hash on < 40 bytes panics, no error channel) is recorded.",
+        "design_ref": "DESIGN.md section 6 C20",
+        "level_note": "Outcome-class oracle only (Ok/Err vs panic/step-limit/abort); says nothing about the returned values (other properties do).",
+        "technique": "runtime outcome-class monitor under panic capture, RNG step counter and watchdog; call/return journal for abort attribution",
+    },
+})
+
 NOT_APPLICABLE = []
